@@ -1,4 +1,5 @@
 import BumpVerif.Proofs.Ledger
+import BumpVerif.Proofs.Rewind
 /-! # C03 — chunks are returned to the global allocator exactly once and never early
 
 The ledger is computed from the *event log alone* (what the global allocator saw): a successful
@@ -47,7 +48,7 @@ theorem drop_ledger (s : St) (hl : Ledger s) : ledger [] (dropArena s).evs = [] 
 chunks, `reset` at any point, failed allocations, allocator refusals at any point — the allocator
 ledger (computed from the event log alone) equals the arena's chunk list; so every block obtained
 was either still held or freed exactly once with its own layout, and only by `reset`. -/
-theorem history_ledger {E} (hE : EnvOK E) : ∀ (ops : List Op) (y : Sys), LiveInv E y → Ledger y.st → RunOK E ops y →
+theorem history_ledger {E} (hE : EnvOK E) : ∀ (ops : List Op) (y : Sys), LiveInv E y → Ledger y.st → RunOKFull E ops y →
     Ledger (sysRun E ops y).1.st := by
   intro ops
   induction ops with
@@ -55,7 +56,7 @@ theorem history_ledger {E} (hE : EnvOK E) : ∀ (ops : List Op) (y : Sys), LiveI
   | cons op ops ih =>
     intro y inv hl hrun
     obtain ⟨hv, hne, hrest⟩ := hrun
-    have inv' := (sysStep_live hE y op inv hv).2 hne
+    have inv' := (sysStep_live_full hE y op inv hv).2 hne
     have hl' := sysStep_ledger hE y op inv hv hl hne
     exact ih (sysStep E op y).1 inv' hl' hrest
 
